@@ -573,6 +573,9 @@ class ApplicationJobs:
                 # NOTE: this is done BEFORE the forced state is sent because the event will come back immediately
                 #       in the on_event method below
                 self.current_jobs.remove(command)
+                # a request that timed out is a failure of the job
+                # NOTE: for the same reason, this is done BEFORE the forced state is sent
+                self.process_failure(command.process)
                 # generate a process event for this process to inform all Supvisors instances
                 reason = f'process {getProcessStateDescription(expected_state)} event not received in time'
                 self.fail_command(command.process, command.identifier, event_time, reason)
